@@ -125,6 +125,11 @@ func c08Frags(r *plan.Rng) []c08Frag {
 			"inmap.nest.x = inp + 1",
 			"inmap.nest.l[1] = ins",
 			"r9n := inarr[3][0] + inmap.nest.x + len(inmap.nest.l[1])"}},
+		{name: "mutateInsideImmutable", lines: []string{
+			"inimm.limits.n = inp",
+			"inimm.list[0] = ins",
+			"inimarr[0][0] = inp + 1",
+			"r9i := inimm.limits.n + inimarr[0][0] + len(inimm.list[0])"}},
 		{name: "format", lines: []string{
 			"r10 := format(\"%05d|%s|%v|%q|%x\", inp, ins, [1, 2], ins, inp)",
 			"r10b := format(\"%8.3f|%-6d|%c\", float(inp) / 3.0, inp, 'x' + inp % 3)"}},
@@ -236,7 +241,7 @@ func genC08(r *plan.Rng) *plan.Plan {
 			for _, in := range c08Inputs(r, i*10+j) {
 				// containers are sometimes left as cloned: the clone's own deep copy
 				// of the original's input is then what the script mutates in place
-				if (in.Name == "inarr" || in.Name == "inmap") && r.Chance(1, 2) {
+				if (in.Name == "inarr" || in.Name == "inmap" || in.Name == "inimm" || in.Name == "inimarr") && r.Chance(1, 2) {
 					continue
 				}
 				v := in.Val
@@ -341,6 +346,9 @@ func c08Inputs(r *plan.Rng, salt int) []plan.Input {
 		{Name: "inarr", Val: plan.Arr(plan.Int(int64(salt)), plan.Int(2), plan.Str("z"), plan.Arr(plan.Int(10), plan.Int(20)))},
 		{Name: "inmap", Val: plan.Map(map[string]plan.Value{"k": plan.Int(int64(salt)), "j": plan.Str("v"),
 			"nest": plan.Map(map[string]plan.Value{"x": plan.Int(1), "l": plan.Arr(plan.Int(1), plan.Str("q"))})})},
+		// immutable at the top, mutable inside (immutability is shallow)
+		{Name: "inimm", Val: plan.Value{T: "obj:immmap", M: map[string]plan.Value{"limits": plan.Map(map[string]plan.Value{"n": plan.Int(int64(salt))}), "list": plan.Arr(plan.Str("a"), plan.Int(2))}}},
+		{Name: "inimarr", Val: plan.Value{T: "obj:immarray", A: []plan.Value{plan.Arr(plan.Int(int64(salt))), plan.Int(2)}}},
 	}
 }
 
@@ -365,7 +373,7 @@ func genC08Single(r *plan.Rng) *plan.Plan {
 		setup = append(setup, plan.Op{Kind: plan.OpRun, Obj: obj})
 	}
 	p.Setup = setup
-	names2 := []string{"inp", "ins", "done", "inarr", "inmap", "nosuch"}
+	names2 := []string{"inp", "ins", "done", "inarr", "inmap", "inimm", "inimarr", "nosuch"}
 	for t := 0; t < nt; t++ {
 		var ops []plan.Op
 		own := 2 + t // slot for this task's private clone
@@ -380,7 +388,8 @@ func genC08Single(r *plan.Rng) *plan.Plan {
 			case x < 5:
 				ops = append(ops, plan.Op{Kind: plan.OpIsDefined, Obj: obj, Name: names2[r.Intn(len(names2))]})
 			case x < 7:
-				in := c08Inputs(r, t*10+j)[r.Intn(4)]
+				ins := c08Inputs(r, t*10+j)
+				in := ins[r.Intn(len(ins))]
 				v := in.Val
 				ops = append(ops, plan.Op{Kind: plan.OpSet, Obj: obj, Name: in.Name, Val: &v})
 			case x < 9:
